@@ -114,6 +114,12 @@ def engine_scenario(sh: Shard, seed, idx):
             queued.append(b)
             if r.random() < 0.3:
                 s.sleep(r.choice([0.001, 0.015, 0.03, 0.2]))
+            if r.random() < 0.3:
+                # incoming traffic makes the engine loop spin faster than its receive timeout:
+                # only the throttle keeps the sends apart then
+                for j in range(r.randrange(5, 40)):
+                    peer.sendto(b"nothing-%d" % j, sock._socket.addr)
+                sh.count("send_batches_with_incoming_flood")
         s.run_until(lambda: not sock._send_handlers, 10)
         s.sleep(0.1)
         out = sock._socket.sent[base:]
@@ -416,6 +422,7 @@ def main(tier, seed):
     run.need(run.counters.get("unanswered_requests_ok", 0) + run.counters.get("answered_requests_ok", 0) > 50, "too few request lifetimes observed")
     run.need(run.counters.get("handshakes_completed", 0) > 30, "too few handshakes completed")
     run.need(run.counters.get("line_events_injected", 0) > 5000, "stress: yield injection saw too few line events")
+    run.need(run.counters.get("send_batches_with_incoming_flood", 0) > 10, "no send batch was paced against an incoming flood")
     run.extra["handshake_loss_scripts"] = len(scripts)
     return run.finish(
         rule="engine scenarios under the baton scheduler: 1-5 recording handlers with overlapping acceptance in drawn registration orders (some raising, some self-removing) x 3-24 datagrams; 2-39 queued sends with drawn gaps; requests with timeout 0.01-8 s and 0-12 retries, unanswered or answered at a drawn transmission; handshake loss scripts enumerated per step (attempt k of version / channel / config / status is the first to get through, k = 2..11, loss placed on the request, the reply, or one segment of the status chain) plus drawn combinations; real-thread stress of the send/handler queues with line-level yield injection; one evaluation = one dispatch / send batch / request lifetime / handshake / stress run",
